@@ -158,7 +158,7 @@ PROPS["C16"] = {
             "pairs over an id pool containing a, a:stop, a:stop:stop, b:stop, the empty id, prefixes and suffixes; nil configs; "
             "result compared with the model (for clashing ids: membership in the set of model results over all iteration orders) "
             "and Spec.C16.planOk. Non-trivial = the plan starts or stops something; distinct by (current, desired). Cluster leg: the real "
-            "httpcluster.Runner with instrumented server runners (factory through the verif export, 40 ms readiness deadline) over "
+            "httpcluster.Runner with instrumented server runners (factory through the verif export, 150 ms readiness deadline) over "
             "sequences of 1-6 configuration maps on pools of 5-7 ids (one pool with a, a:stop, a:stop:stop, b:stop), configs "
             "equal/changed/nil, factory errors, never-ready servers and slow stops per id, ended by Stop, cancel or siphon close after "
             "any number of pushes; after every processed map: running instances, GetServerCount, cluster state; oracle "
